@@ -138,13 +138,12 @@ def wfp (n me : Nat) : List Instr → Option Nat → Bool → Option (List Nat) 
       decide (h = some key.shard) && f && d.isNone && sn.isNone && decide (key.peer = me) && wfp n me r h f d sn
   | .commitSr k _ :: r, h, f, d, sn => decide (h = some k) && f && sn.isNone && wfp n me r h f d sn
   | .commitDrop k :: r, h, f, d, sn => decide (h = some k) && sn.isNone && wfp n me r h f (some (k :: d.getD [])) sn
-  -- the purge class is outside the proved fragment (the property fails there: finding S28b)
-  | .commitStale _ :: _, _, _, _, _ => false
-  | .commitDropQuiet _ :: _, _, _, _, _ => false
-  | .commitPurge _ :: _, _, _, _, _ => false
-  | .commitLlgr _ :: _, _, _, _, _ => false
-  | .commitLpurge _ :: _, _, _, _, _ => false
-  | .sendDownGr :: _, _, _, _, _ => false
+  | .commitStale k :: r, h, f, d, sn => decide (h = some k) && sn.isNone && wfp n me r h f (some (k :: d.getD [])) sn
+  | .commitDropQuiet k :: r, h, f, d, sn => decide (h = some k) && f && d.isNone && sn.isNone && wfp n me r h f d sn
+  | .commitPurge k :: r, h, f, d, sn => decide (h = some k) && f && d.isNone && sn.isNone && wfp n me r h f d sn
+  | .commitLlgr k :: r, h, f, d, sn => decide (h = some k) && wfp n me r h f d sn
+  | .commitLpurge k :: r, h, f, d, sn => decide (h = some k) && f && d.isNone && sn.isNone && wfp n me r h f d sn
+  | .sendDownGr :: r, h, f, d, sn => h.isNone && sn.isNone && cover n (d.getD []) && wfp n me r h f none sn
   | .setEst _ :: r, h, f, d, sn => wfp n me r h f d sn
   | .regShard k :: r, h, f, d, sn => decide (h = some k) && wfp n me r h f d sn
   | .captureE0 :: r, h, f, d, sn => sn.isNone && wfp n me r h f d sn
@@ -170,6 +169,20 @@ def TWF (n me : Nat) (t : Thread) : Prop :=
 def droppedShard (st : St) (key : Key) : Prop :=
   ∃ l, (st.threads key.peer).drop = some l ∧ key.shard ∈ l
 
+/-- the table holds `key` as a route of a session whose `Source` has been marked stale -/
+def staleKeyR (R : Key → Option Entry) (G : List (Nat × Nat)) (key : Key) : Prop :=
+  ∃ e, R key = some e ∧ (key.peer, e.gen) ∈ G
+
+def staleKey (st : St) (key : Key) : Prop := staleKeyR st.rib st.staleGens key
+
+theorem staleKeyR_congr {R R' : Key → Option Entry} {G : List (Nat × Nat)} {key : Key} (h : R key = R' key) :
+    staleKeyR R G key ↔ staleKeyR R' G key := by simp [staleKeyR, h]
+
+/-- carry the two escape disjuncts of `viewI` over to a table that agrees on `key` -/
+theorem escape_congr {R : Key → Option Entry} {st : St} {key : Key} {P D : Prop} (h : R key = st.rib key) :
+    P ∨ D ∨ staleKey st key → P ∨ D ∨ staleKeyR R st.staleGens key :=
+  Or.imp id (Or.imp id (staleKeyR_congr h).mpr)
+
 structure Inv (st : St) : Prop where
   idle : ∀ i, st.nthreads ≤ i → (st.threads i).pgm = [] ∧ (st.threads i).held = none
   wf : ∀ i, TWF st.n i (st.threads i)
@@ -185,11 +198,9 @@ structure Inv (st : St) : Prop where
   recs : ∀ i, ∀ r ∈ (st.threads i).mysubs, r.want = true →
           r.sid ∈ st.complete ∨ ∃ l, (st.threads i).snapping = some (r.sid, l)
   tshard : ∀ s m key, touched m key (st.queues s) → key.shard < st.n
-  /-- no `Source` is marked stale (the purge class is outside the proved fragment) -/
-  nostale : st.staleGens = []
   /-- a completed snapshot has its EndOfSnapshot in the queue -/
   eosI : ∀ s ∈ st.complete, Ev.eos ∈ st.queues s
-  dropped : ∀ key, droppedShard st key → st.rib key = none
+  dropped : ∀ key, droppedShard st key → st.rib key = none ∨ staleKey st key
   /-- a lock holder whose subscriber list (loaded under the lock) lacks a live subscriber: that
       subscriber has neither snapshotted the shard nor received any event of it -/
   blind : ∀ i s k, (st.threads i).held = some k → (st.threads i).fresh = true → s ∈ st.subscribers →
@@ -199,7 +210,7 @@ structure Inv (st : St) : Prop where
       what the RIB holds (or the peer's teardown has already dropped that shard and PeerDown is
       still to come) -/
   viewI : ∀ s ∈ st.subscribers, ∀ m key, (touched m key (st.queues s) ∨ key.shard ∈ st.done s) →
-            view m key (st.queues s) = ribV m st key ∨ droppedShard st key
+            view m key (st.queues s) = ribV m st key ∨ droppedShard st key ∨ staleKey st key
 
 /-! ## Preservation: helpers -/
 
@@ -229,7 +240,7 @@ theorem lockFree_spec {st : St} {k me : Nat} (hI : Inv st) (h : lockFree st k me
 
 /-- A step of thread `me` that touches no shared data except the policy, and in the thread only
     pgm / subs / pol / held / fresh / dirty / count / rets. -/
-theorem inv_core {st : St} {me : Nat} {t' : Thread} {p : Pol} {E : List Nat} {A : List (Nat × Nat)} (hI : Inv st)
+theorem inv_core {st : St} {me : Nat} {t' : Thread} {p : Pol} {E : List Nat} {A L : List (Nat × Nat)} (hI : Inv st)
     (hme : me < st.nthreads)
     (hd : t'.drop = (st.threads me).drop) (hsn : t'.snapping = (st.threads me).snapping)
     (hms : ∀ r' ∈ t'.mysubs, ∃ r ∈ (st.threads me).mysubs, r.sid = r'.sid ∧ r.want = r'.want)
@@ -238,7 +249,7 @@ theorem inv_core {st : St} {me : Nat} {t' : Thread} {p : Pol} {E : List Nat} {A 
     (hsubs : ∀ s ∈ t'.subs, s < st.nextSub)
     (hblind : ∀ s k, t'.held = some k → t'.fresh = true → s ∈ st.subscribers → s ∉ t'.subs →
         k ∉ st.done s ∧ ∀ m key, key.shard = k → ¬ touched m key (st.queues s)) :
-    Inv { st with policy := p, established := E, addpath := A, threads := updT st.threads me t' } := by
+    Inv { st with policy := p, established := E, addpath := A, llgrGens := L, threads := updT st.threads me t' } := by
   have hdrop : ∀ i, (updT st.threads me t' i).drop = (st.threads i).drop := by
     intro i; by_cases h : i = me
     · subst h; simp [hd]
@@ -251,7 +262,7 @@ theorem inv_core {st : St} {me : Nat} {t' : Thread} {p : Pol} {E : List Nat} {A 
     intro i r' hr'; by_cases h : i = me
     · subst h; simp only [updT_self] at hr'; exact hms r' hr'
     · simp only [updT_ne _ _ h] at hr'; exact ⟨r', hr', rfl, rfl⟩
-  have hds : ∀ key, droppedShard { st with policy := p, established := E, addpath := A, threads := updT st.threads me t' } key ↔ droppedShard st key := by
+  have hds : ∀ key, droppedShard { st with policy := p, established := E, addpath := A, llgrGens := L, threads := updT st.threads me t' } key ↔ droppedShard st key := by
     intro key; simp [droppedShard, hdrop]
   constructor <;> dsimp only
   · intro i hi
@@ -290,7 +301,6 @@ theorem inv_core {st : St} {me : Nat} {t' : Thread} {p : Pol} {E : List Nat} {A 
     rw [hsnap, ← h1]
     exact hI.recs i r0 hr0 (h2 ▸ hw)
   · exact hI.tshard
-  · exact hI.nostale
   · exact hI.eosI
   · intro key hdk
     exact hI.dropped key ((hds key).mp hdk)
@@ -299,9 +309,10 @@ theorem inv_core {st : St} {me : Nat} {t' : Thread} {p : Pol} {E : List Nat} {A 
     · subst h; simp only [updT_self] at hh hf hns; exact hblind s k hh hf hs hns
     · simp only [updT_ne _ _ h] at hh hf hns; exact hI.blind i s k hh hf hs hns
   · intro s hs m key hpre
-    rcases hI.viewI s hs m key hpre with h | h
+    rcases hI.viewI s hs m key hpre with h | h | h
     · left; exact h
-    · right; exact (hds key).mpr h
+    · right; left; exact (hds key).mpr h
+    · right; right; exact h
 
 /-- `ribV` through the table only -/
 def ribVr (m : Bool) (R : Key → Option Entry) (key : Key) : Option Nat :=
@@ -324,11 +335,11 @@ theorem inv_data {st : St} {me : Nat} {t' : Thread} {AQ : Nat → List Bool} (hI
     (hsup : ∀ key e, R key = some e → key ∈ K ∧ key.shard < st.n)
     (hidsQ : ∀ s, st.nextSub ≤ s → Q s = [])
     (htshard : ∀ s m key, touched m key (Q s) → key.shard < st.n)
-    (hdropped : ∀ key, droppedShard st key → R key = none)
+    (hdropped : ∀ key, droppedShard st key → R key = none ∨ staleKeyR R st.staleGens key)
     (hblind : ∀ i s k, (st.threads i).held = some k → (st.threads i).fresh = true → s ∈ st.subscribers →
         s ∉ (st.threads i).subs → ∀ m key, key.shard = k → ¬ touched m key (Q s))
     (hview : ∀ s ∈ st.subscribers, ∀ m key, (touched m key (Q s) ∨ key.shard ∈ st.done s) →
-        view m key (Q s) = ribVr m R key ∨ droppedShard st key) :
+        view m key (Q s) = ribVr m R key ∨ droppedShard st key ∨ staleKeyR R st.staleGens key) :
     Inv { st with rib := R, keys := K, queues := Q, apq := AQ, threads := updT st.threads me t' } := by
   have hth : ∀ i, (updT st.threads me t' i).subs = (st.threads i).subs ∧
       (updT st.threads me t' i).held = (st.threads i).held ∧
@@ -368,7 +379,6 @@ theorem inv_data {st : St} {me : Nat} {t' : Thread} {AQ : Nat → List Bool} (hI
     rw [(hth i).2.2.2.2.2] at hr; rw [(hth i).2.2.2.2.1]
     exact hI.recs i r hr hw
   · exact htshard
-  · exact hI.nostale
   · intro s hs; exact hmono s _ (hI.eosI s hs)
   · intro key hdk
     exact hdropped key ((hds key).mp hdk)
@@ -376,9 +386,10 @@ theorem inv_data {st : St} {me : Nat} {t' : Thread} {AQ : Nat → List Bool} (hI
     rw [(hth i).2.1] at hh'; rw [(hth i).2.2.1] at hf'; rw [(hth i).1] at hns
     exact ⟨(hI.blind i s k hh' hf' hs hns).1, hblind i s k hh' hf' hs hns⟩
   · intro s hs m key hpre
-    rcases hview s hs m key hpre with h | h
+    rcases hview s hs m key hpre with h | h | h
     · left; rw [ribV_eq]; exact h
-    · right; exact (hds key).mpr h
+    · right; left; exact (hds key).mpr h
+    · right; right; exact h
 
 /-! ## Preservation: one lemma per atomic step -/
 
@@ -421,7 +432,7 @@ theorem step_commitIns {st st' : St} {me key a rest} (hI : Inv st)
   split at hs
   · -- prefix limit exceeded: nothing happens
     injection hs with hs; subst hs
-    exact inv_core (p := st.policy) (E := st.established) (A := st.addpath) hI hme rfl rfl (fun r hr => ⟨r, hr, rfl, rfl⟩)
+    exact inv_core (p := st.policy) (E := st.established) (A := st.addpath) (L := st.llgrGens) hI hme rfl rfl (fun r hr => ⟨r, hr, rfl, rfl⟩)
       (by unfold TWF; simpa [hheld, hfresh, hdrop] using hrest)
       (fun k hk => ⟨hI.heldlt me k hk, fun j hj hh => hj (hI.excl j me k hh hk)⟩)
       (hI.idsT me)
@@ -454,7 +465,8 @@ theorem step_commitIns {st st' : St} {me key a rest} (hI : Inv st)
       · subst hk
         obtain ⟨l, hl, _⟩ := hdk
         rw [hpeer, hdrop] at hl; cases hl
-      · simp only [hk, if_false]; exact hI.dropped k' hdk
+      · simp only [hk, if_false]
+        exact (hI.dropped k' hdk).imp id (staleKeyR_congr (by rw [hR]; simp [hk])).mpr
     · -- blind
       intro i s k hh hf hs hns m k' hk' htch
       rcases touched_send htch with h | ⟨hin, h⟩
@@ -480,7 +492,7 @@ theorem step_commitIns {st st' : St} {me key a rest} (hI : Inv st)
             · exact Or.inr h
           have : ribVr m (updRib st.rib key (some ⟨encVal a, applyImport (st.threads me).pol (encVal a), (st.threads me).gen⟩)) k' = ribV m st k' := by
             rw [ribV_eq]; simp [ribVr, hR, hk]
-          rw [this]; exact hI.viewI s hs m k' hpre'
+          rw [this]; exact escape_congr (by rw [hR]; simp [hk]) (hI.viewI s hs m k' hpre')
       · rw [send_out hin] at hpre ⊢
         have hb := hI.blind me s _ hheld hfresh hs hin
         by_cases hk : k' = key
@@ -490,7 +502,7 @@ theorem step_commitIns {st st' : St} {me key a rest} (hI : Inv st)
           · exact absurd h hb.1
         · have : ribVr m (updRib st.rib key (some ⟨encVal a, applyImport (st.threads me).pol (encVal a), (st.threads me).gen⟩)) k' = ribV m st k' := by
             rw [ribV_eq]; simp [ribVr, hR, hk]
-          rw [this]; exact hI.viewI s hs m k' hpre
+          rw [this]; exact escape_congr (by rw [hR]; simp [hk]) (hI.viewI s hs m k' hpre)
 
 theorem touched_remEvs {m key key'} :
     touched m key' [Ev.pre key none, Ev.post key none] → key' = key := by
@@ -532,7 +544,8 @@ theorem inv_rem {st : St} {me key} {t' : Thread} {R : Key → Option Entry} {AQ 
     rw [hR]
     by_cases hk : k' = key
     · simp [hk]
-    · simp only [hk, if_false]; exact hI.dropped k' hdk
+    · simp only [hk, if_false]
+      exact (hI.dropped k' hdk).imp id (staleKeyR_congr (by rw [hR]; simp [hk])).mpr
   · intro i s k hh' hf' hs hns m k' hk' htch
     rcases touched_send htch with h | ⟨hin, h⟩
     · exact (hI.blind i s k hh' hf' hs hns).2 m k' hk' h
@@ -554,7 +567,7 @@ theorem inv_rem {st : St} {me key} {t' : Thread} {R : Key → Option Entry} {AQ 
           · rw [touched_append] at h; exact h.elim Or.inl (fun h => absurd h hnt)
           · exact Or.inr h
         have : ribVr m R k' = ribV m st k' := by rw [ribV_eq]; simp [ribVr, hR, hk]
-        rw [this]; exact hI.viewI s hs m k' hpre'
+        rw [this]; exact escape_congr (by rw [hR]; simp [hk]) (hI.viewI s hs m k' hpre')
     · rw [send_out hin] at hpre ⊢
       have hb := hI.blind me s _ hheld hfresh hs hin
       by_cases hk : k' = key
@@ -563,7 +576,7 @@ theorem inv_rem {st : St} {me key} {t' : Thread} {R : Key → Option Entry} {AQ 
         · exact absurd h (hb.2 m _ rfl)
         · exact absurd h hb.1
       · have : ribVr m R k' = ribV m st k' := by rw [ribV_eq]; simp [ribVr, hR, hk]
-        rw [this]; exact hI.viewI s hs m k' hpre
+        rw [this]; exact escape_congr (by rw [hR]; simp [hk]) (hI.viewI s hs m k' hpre)
 
 theorem step_commitRem {st st' : St} {me key rest} (hI : Inv st)
     (hp : (st.threads me).pgm = .commitRem key :: rest) (hs : step me st = some st') : Inv st' := by
@@ -610,19 +623,17 @@ theorem mem_peerKeysIn {st : St} {p k key} :
     key ∈ peerKeysIn st p k ↔ key ∈ st.keys ∧ key.peer = p ∧ key.shard = k ∧ (st.rib key).isSome = true := by
   simp [peerKeysIn, and_assoc]
 
-theorem isStale_false {st : St} (h : st.staleGens = []) (p : Nat) (e : Entry) : isStale st p e = false := by
-  simp [isStale, h]
-
-theorem mem_freshKeysIn {st : St} (h : st.staleGens = []) {p k key} :
-    key ∈ freshKeysIn st p k ↔ key ∈ st.keys ∧ key.peer = p ∧ key.shard = k ∧ (st.rib key).isSome = true := by
+theorem mem_freshKeysIn {st : St} {p k key} :
+    key ∈ freshKeysIn st p k ↔ key ∈ st.keys ∧ key.peer = p ∧ key.shard = k ∧
+      ∃ e, st.rib key = some e ∧ isStale st p e = false := by
   unfold freshKeysIn
   rw [List.mem_filter, mem_peerKeysIn]
   constructor
-  · exact fun h => h.1
-  · intro hk
-    refine ⟨hk, ?_⟩
-    obtain ⟨e, he⟩ := Option.isSome_iff_exists.mp hk.2.2.2
-    simp [he, isStale_false h]
+  · rintro ⟨⟨h1, h2, h3, h4⟩, h5⟩
+    obtain ⟨e, he⟩ := Option.isSome_iff_exists.mp h4
+    exact ⟨h1, h2, h3, e, he, by simpa [he] using h5⟩
+  · rintro ⟨h1, h2, h3, e, he, hs⟩
+    exact ⟨⟨h1, h2, h3, by simp [he]⟩, by simp [he, hs]⟩
 
 theorem step_commitSr {st st' : St} {me k p rest} (hI : Inv st)
     (hp : (st.threads me).pgm = .commitSr k p :: rest) (hs : step me st = some st') : Inv st' := by
@@ -631,87 +642,101 @@ theorem step_commitSr {st st' : St} {me k p rest} (hI : Inv st)
   unfold TWF at hw; rw [hp] at hw
   simp only [wfp, Bool.and_eq_true, decide_eq_true_eq, Option.isNone_iff_eq_none] at hw
   obtain ⟨⟨⟨hheld, hfresh⟩, hsnap⟩, hrest⟩ := hw
-  have hns := hI.nostale
   simp only [step, hp] at hs
   injection hs with hs; subst hs
   let pol := (st.threads me).pol
   let np : Key → Option Nat := fun key => (st.rib key).bind fun e => applyImport pol e.pre
+  -- the table afterwards
+  let R : Key → Option Entry := fun key => if key.peer = p ∧ key.shard = k then
+      (st.rib key).map fun e => if isStale st p e = true then e else
+        { e with post := applyImport (st.threads me).pol e.pre } else st.rib key
   have hevs : (freshKeysIn st p k).map (fun key => Ev.post key ((st.rib key).bind fun e => applyImport (st.threads me).pol e.pre))
       = postBatch (freshKeysIn st p k) np := rfl
   rw [hevs]
-  refine inv_data hI _ _ _ hme rfl rfl rfl rfl rfl rfl
+  -- the entry of a key keeps its session and its pre-policy attributes
+  have hRsome : ∀ k' e, st.rib k' = some e → ∃ e', R k' = some e' ∧ e'.gen = e.gen ∧ e'.pre = e.pre := by
+    intro k' e he
+    by_cases hc : k'.peer = p ∧ k'.shard = k
+    · by_cases hst : isStale st p e = true
+      · exact ⟨e, by simp [R, hc, he, hst], rfl, rfl⟩
+      · exact ⟨{ e with post := applyImport (st.threads me).pol e.pre }, by simp [R, hc, he, hst], rfl, rfl⟩
+    · exact ⟨e, by simp [R, hc, he], rfl, rfl⟩
+  have hRnone : ∀ k', st.rib k' = none → R k' = none := by
+    intro k' he
+    by_cases hc : k'.peer = p ∧ k'.shard = k <;> simp [R, hc, he]
+  have hstale : ∀ k', staleKey st k' → staleKeyR R st.staleGens k' := by
+    intro k' ⟨e, he, hg⟩
+    obtain ⟨e', he', hgen, _⟩ := hRsome k' e he
+    exact ⟨e', he', hgen ▸ hg⟩
+  refine inv_data hI R _ _ hme rfl rfl rfl rfl rfl rfl
     (by unfold TWF; simpa [hheld, hfresh] using hrest) (fun s e h => send_mono h) ?_ ?_ ?_ ?_ ?_ ?_
   · intro k' e he
-    split at he
-    · cases h : st.rib k' with
-      | none => simp [h] at he
-      | some e0 => exact hI.sup k' e0 h
-    · exact hI.sup k' e he
+    cases h : st.rib k' with
+    | none => rw [hRnone k' h] at he; cases he
+    | some e0 => exact hI.sup k' e0 h
   · intro s hs
     have : s ∉ (st.threads me).subs := fun h => Nat.lt_irrefl _ (Nat.lt_of_lt_of_le (hI.idsT me s h) hs)
     rw [send_out this]; exact (hI.idsQ s hs).1
   · intro s m k' htch
     rcases touched_send htch with h | ⟨_, h⟩
     · exact hI.tshard s m k' h
-    · have := ((mem_freshKeysIn hns).mp (touched_postBatch.mp h).2).2.2.1
+    · have := (mem_freshKeysIn.mp (touched_postBatch.mp h).2).2.2.1
       rw [this]; exact hI.heldlt me _ hheld
   · intro k' hdk
-    split
-    · rw [hI.dropped k' hdk]; rfl
-    · exact hI.dropped k' hdk
+    rcases hI.dropped k' hdk with h | h
+    · left; exact hRnone k' h
+    · right; exact hstale k' h
   · intro i s k0 hh hf hs hns' m k' hk' htch
     rcases touched_send htch with h | ⟨hin, h⟩
     · exact (hI.blind i s k0 hh hf hs hns').2 m k' hk' h
-    · have hsh := ((mem_freshKeysIn hns).mp (touched_postBatch.mp h).2).2.2.1
+    · have hsh := (mem_freshKeysIn.mp (touched_postBatch.mp h).2).2.2.1
       have : i = me := hI.excl i me _ hh (by rw [← hk', hsh]; exact hheld)
       subst this; exact hns' hin
   · intro s hs m k' hpre
-    -- the table afterwards, per map
-    have hrib : ∀ m, ribVr m (fun key => if key.peer = p ∧ key.shard = k then
-          (st.rib key).map fun e => if isStale st p e = true then e else
-            { e with post := applyImport (st.threads me).pol e.pre } else st.rib key) k'
-        = if m = true ∧ k'.peer = p ∧ k'.shard = k then np k' else ribV m st k' := by
-      intro m
+    -- what the table holds afterwards, per map
+    have hribF : m = true → k' ∈ freshKeysIn st p k → ribVr m R k' = np k' := by
+      intro hm hk
+      obtain ⟨_, h2, h3, e, he, hst⟩ := mem_freshKeysIn.mp hk
+      subst hm
+      simp [ribVr, R, h2, h3, he, hst, np, pol]
+    have hribO : ¬ (m = true ∧ k' ∈ freshKeysIn st p k) → ribVr m R k' = ribV m st k' := by
+      intro hno
       rw [ribV_eq]
-      by_cases hc : k'.peer = p ∧ k'.shard = k
-      · cases m <;> cases h : st.rib k' <;> simp [ribVr, hc, h, np, pol, isStale_false hns]
-      · cases m <;> simp [ribVr, hc]
-    rw [hrib]
+      cases he : st.rib k' with
+      | none => simp [ribVr, hRnone k' he, he]
+      | some e =>
+        by_cases hc : k'.peer = p ∧ k'.shard = k
+        · by_cases hst : isStale st p e = true
+          · simp [ribVr, R, hc, he, hst]
+          · cases m with
+            | false => simp [ribVr, R, hc, he, hst]
+            | true =>
+              exact absurd ⟨rfl, mem_freshKeysIn.mpr ⟨(hI.sup k' e he).1, hc.1, hc.2, e, he, by simpa using hst⟩⟩ hno
+        · simp [ribVr, R, hc, he]
     by_cases hin : s ∈ (st.threads me).subs
     · rw [send_in hin] at hpre ⊢
       by_cases hmem : m = true ∧ k' ∈ freshKeysIn st p k
       · -- re-announced key
-        obtain ⟨hm, hk⟩ := hmem
-        have hk2 := (mem_freshKeysIn hns).mp hk
         left
         rw [view_append, foldl_batch_hit m k' (np k') _ _ (postBatch_no_down _ _) postBatch_val
-          (touched_postBatch.mpr ⟨hm, hk⟩)]
-        simp [hm, hk2.2.1, hk2.2.2.1]
+          (touched_postBatch.mpr hmem), hribF hmem.1 hmem.2]
       · have hnt : ¬ touched m k' (postBatch (freshKeysIn st p k) np) := fun h => hmem (touched_postBatch.mp h)
         rw [view_append, foldl_untouched m k' _ _ hnt (fun e he p hp => absurd hp (postBatch_no_down _ _ e he p))]
         have hpre' : touched m k' (st.queues s) ∨ k'.shard ∈ st.done s := by
           rcases hpre with h | h
           · rw [touched_append] at h; exact h.elim Or.inl (fun h => absurd h hnt)
           · exact Or.inr h
-        have hv := hI.viewI s hs m k' hpre'
-        by_cases hc : m = true ∧ k'.peer = p ∧ k'.shard = k
-        · -- a key of this peer and shard that is not in the table
-          have hnone : st.rib k' = none := by
-            cases h : st.rib k' with
-            | none => rfl
-            | some e =>
-              exact absurd ⟨hc.1, (mem_freshKeysIn hns).mpr ⟨(hI.sup k' e h).1, hc.2.1, hc.2.2, by simp [h]⟩⟩ hmem
-          rw [if_pos hc]
-          have : np k' = ribV m st k' := by simp [np, hnone, ribV, postOf, preOf]
-          rw [this]; exact hv
-        · rw [if_neg hc]; exact hv
+        rw [hribO hmem]
+        exact (hI.viewI s hs m k' hpre').imp id (Or.imp id (hstale k'))
     · rw [send_out hin] at hpre ⊢
       have hb := hI.blind me s _ hheld hfresh hs hin
-      by_cases hc : m = true ∧ k'.peer = p ∧ k'.shard = k
-      · rcases hpre with h | h
-        · exact absurd h (hb.2 m _ hc.2.2)
-        · exact absurd (hc.2.2 ▸ h) hb.1
-      · rw [if_neg hc]; exact hI.viewI s hs m k' hpre
+      by_cases hmem : m = true ∧ k' ∈ freshKeysIn st p k
+      · have hsh := (mem_freshKeysIn.mp hmem.2).2.2.1
+        rcases hpre with h | h
+        · exact absurd h (hb.2 m _ hsh)
+        · exact absurd (hsh ▸ h) hb.1
+      · rw [hribO hmem]
+        exact (hI.viewI s hs m k' hpre).imp id (Or.imp id (hstale k'))
 
 theorem keepCore {st : St} {me : Nat} (hI : Inv st) :
     (∀ k, (st.threads me).held = some k → k < st.n ∧ ∀ j, j ≠ me → (st.threads j).held ≠ some k) ∧
@@ -731,7 +756,7 @@ theorem step_yld {st st' : St} {me y rest} (hI : Inv st)
   simp only [step, hp] at hs
   injection hs with hs; subst hs
   cases y <;>
-    exact inv_core (p := st.policy) (E := st.established) (A := st.addpath) hI hme rfl rfl (fun r hr => ⟨r, hr, rfl, rfl⟩) (by unfold TWF; simpa using hrest)
+    exact inv_core (p := st.policy) (E := st.established) (A := st.addpath) (L := st.llgrGens) hI hme rfl rfl (fun r hr => ⟨r, hr, rfl, rfl⟩) (by unfold TWF; simpa using hrest)
       (keepCore hI).1 (hI.idsT me) (keepCore hI).2
 
 theorem step_loadPol {st st' : St} {me rest} (hI : Inv st)
@@ -742,7 +767,7 @@ theorem step_loadPol {st st' : St} {me rest} (hI : Inv st)
   simp only [wfp] at hw
   simp only [step, hp] at hs
   injection hs with hs; subst hs
-  exact inv_core (p := st.policy) (E := st.established) (A := st.addpath) hI hme rfl rfl (fun r hr => ⟨r, hr, rfl, rfl⟩) (by unfold TWF; simpa using hw)
+  exact inv_core (p := st.policy) (E := st.established) (A := st.addpath) (L := st.llgrGens) hI hme rfl rfl (fun r hr => ⟨r, hr, rfl, rfl⟩) (by unfold TWF; simpa using hw)
     (keepCore hI).1 (hI.idsT me) (keepCore hI).2
 
 theorem step_setPol {st st' : St} {me p rest} (hI : Inv st)
@@ -753,7 +778,7 @@ theorem step_setPol {st st' : St} {me p rest} (hI : Inv st)
   simp only [wfp] at hw
   simp only [step, hp] at hs
   injection hs with hs; subst hs
-  exact inv_core (p := p) (E := st.established) (A := st.addpath) hI hme rfl rfl (fun r hr => ⟨r, hr, rfl, rfl⟩) (by unfold TWF; simpa using hw)
+  exact inv_core (p := p) (E := st.established) (A := st.addpath) (L := st.llgrGens) hI hme rfl rfl (fun r hr => ⟨r, hr, rfl, rfl⟩) (by unfold TWF; simpa using hw)
     (keepCore hI).1 (hI.idsT me) (keepCore hI).2
 
 theorem step_setEst {st st' : St} {me b rest} (hI : Inv st)
@@ -764,7 +789,7 @@ theorem step_setEst {st st' : St} {me b rest} (hI : Inv st)
   simp only [wfp] at hw
   simp only [step, hp] at hs
   injection hs with hs; subst hs
-  exact inv_core (p := st.policy) (A := st.addpath) hI hme rfl rfl (fun r hr => ⟨r, hr, rfl, rfl⟩) (by unfold TWF; simpa using hw)
+  exact inv_core (p := st.policy) (A := st.addpath) (L := st.llgrGens) hI hme rfl rfl (fun r hr => ⟨r, hr, rfl, rfl⟩) (by unfold TWF; simpa using hw)
     (keepCore hI).1 (hI.idsT me) (keepCore hI).2
 
 theorem mem_setLast {l : List SubRec} {f : SubRec → SubRec} {r : SubRec} (h : r ∈ setLast l f) :
@@ -787,7 +812,7 @@ theorem step_regShard {st st' : St} {me k rest} (hI : Inv st)
   simp only [wfp, Bool.and_eq_true, decide_eq_true_eq] at hw
   simp only [step, hp] at hs
   injection hs with hs; subst hs
-  exact inv_core (p := st.policy) (E := st.established) hI hme rfl rfl (fun r hr => ⟨r, hr, rfl, rfl⟩)
+  exact inv_core (p := st.policy) (E := st.established) (L := st.llgrGens) hI hme rfl rfl (fun r hr => ⟨r, hr, rfl, rfl⟩)
     (by unfold TWF; simpa using hw.2) (keepCore hI).1 (hI.idsT me) (keepCore hI).2
 
 theorem step_captureE0 {st st' : St} {me rest} (hI : Inv st)
@@ -798,7 +823,7 @@ theorem step_captureE0 {st st' : St} {me rest} (hI : Inv st)
   simp only [wfp, Bool.and_eq_true] at hw
   simp only [step, hp] at hs
   injection hs with hs; subst hs
-  refine inv_core (p := st.policy) (E := st.established) (A := st.addpath) hI hme rfl rfl ?_
+  refine inv_core (p := st.policy) (E := st.established) (A := st.addpath) (L := st.llgrGens) hI hme rfl rfl ?_
     (by unfold TWF; simpa using hw.2) (keepCore hI).1 (hI.idsT me) (keepCore hI).2
   intro r' hr'
   obtain ⟨r0, hr0, hrr⟩ := mem_setLast hr'
@@ -813,7 +838,7 @@ theorem step_ret {st st' : St} {me rest} (hI : Inv st)
   simp only [wfp] at hw
   simp only [step, hp] at hs
   injection hs with hs; subst hs
-  exact inv_core (p := st.policy) (E := st.established) (A := st.addpath) hI hme rfl rfl (fun r hr => ⟨r, hr, rfl, rfl⟩) (by unfold TWF; simpa using hw)
+  exact inv_core (p := st.policy) (E := st.established) (A := st.addpath) (L := st.llgrGens) hI hme rfl rfl (fun r hr => ⟨r, hr, rfl, rfl⟩) (by unfold TWF; simpa using hw)
     (keepCore hI).1 (hI.idsT me) (keepCore hI).2
 
 theorem step_acquire {st st' : St} {me k rest} (hI : Inv st)
@@ -827,7 +852,7 @@ theorem step_acquire {st st' : St} {me k rest} (hI : Inv st)
   split at hs
   · rename_i hfree
     injection hs with hs; subst hs
-    refine inv_core (p := st.policy) (E := st.established) (A := st.addpath) hI hme rfl rfl (fun r hr => ⟨r, hr, rfl, rfl⟩) (by unfold TWF; simpa using hrest) ?_ (hI.idsT me) ?_
+    refine inv_core (p := st.policy) (E := st.established) (A := st.addpath) (L := st.llgrGens) hI hme rfl rfl (fun r hr => ⟨r, hr, rfl, rfl⟩) (by unfold TWF; simpa using hrest) ?_ (hI.idsT me) ?_
     · intro k' hk'
       simp at hk'; subst hk'
       exact ⟨hk, lockFree_spec hI hfree⟩
@@ -843,7 +868,7 @@ theorem step_release {st st' : St} {me k rest} (hI : Inv st)
   obtain ⟨_, hrest⟩ := hw
   simp only [step, hp] at hs
   injection hs with hs; subst hs
-  refine inv_core (p := st.policy) (E := st.established) (A := st.addpath) hI hme rfl rfl (fun r hr => ⟨r, hr, rfl, rfl⟩) (by unfold TWF; simpa using hrest) ?_ (hI.idsT me) ?_
+  refine inv_core (p := st.policy) (E := st.established) (A := st.addpath) (L := st.llgrGens) hI hme rfl rfl (fun r hr => ⟨r, hr, rfl, rfl⟩) (by unfold TWF; simpa using hrest) ?_ (hI.idsT me) ?_
   · intro k' hk'; simp at hk'
   · intro s k' hk'; simp at hk'
 
@@ -855,7 +880,7 @@ theorem step_loadSubs {st st' : St} {me rest} (hI : Inv st)
   simp only [wfp] at hw
   simp only [step, hp] at hs
   injection hs with hs; subst hs
-  refine inv_core (p := st.policy) (E := st.established) (A := st.addpath) hI hme rfl rfl (fun r hr => ⟨r, hr, rfl, rfl⟩) (by unfold TWF; simpa using hw)
+  refine inv_core (p := st.policy) (E := st.established) (A := st.addpath) (L := st.llgrGens) hI hme rfl rfl (fun r hr => ⟨r, hr, rfl, rfl⟩) (by unfold TWF; simpa using hw)
     (keepCore hI).1 (fun s hs => hI.idsS s hs) ?_
   intro s k _ _ hs hns
   exact absurd hs hns
@@ -959,35 +984,42 @@ theorem step_commitDrop {st st' : St} {me k rest} (hI : Inv st)
     · subst h; simp at hr ⊢; exact hI.recs i r hr hw
     · simp [updT_ne _ _ h] at hr ⊢; exact hI.recs i r hr hw
   · exact hI.tshard
-  · exact hI.nostale
   · exact hI.eosI
-  · intro key ⟨l, hl, hk⟩
-    by_cases h : key.peer = me
-    · rw [h] at hl; simp at hl; subst hl
-      simp at hk
-      rcases hk with hk | hk
-      · simp [h, hk]
-      · have : droppedShard st key := by
-          refine ⟨(st.threads me).drop.getD [], ?_, hk⟩
-          rw [h]
-          cases hd : (st.threads me).drop with
-          | none => simp [hd] at hk
-          | some l => simp
-        simp [hI.dropped key this]
-    · simp [updT_ne _ _ h] at hl
-      simp [h]; exact hI.dropped key ⟨l, hl, hk⟩
+  · intro key hdk
+    by_cases hc : key.peer = me ∧ key.shard = k
+    · left; simp [hc]
+    · have hold : droppedShard st key := by
+        obtain ⟨l, hl, hk⟩ := hdk
+        by_cases h : key.peer = me
+        · rw [h] at hl; simp at hl; subst hl
+          simp at hk
+          rcases hk with hk | hk
+          · exact absurd ⟨h, hk⟩ hc
+          · refine ⟨(st.threads me).drop.getD [], ?_, hk⟩
+            rw [h]
+            cases hd : (st.threads me).drop with
+            | none => simp [hd] at hk
+            | some l => simp
+        · simp [updT_ne _ _ h] at hl; exact ⟨l, hl, hk⟩
+      rcases hI.dropped key hold with h | ⟨e, he, hg⟩
+      · left; simp [hc, h]
+      · right; exact ⟨e, by simp [hc, he], hg⟩
   · intro i s k' hh hf hs hns
     by_cases h : i = me
     · subst h; simp at hh hf hns; exact hI.blind i s k' hh hf hs hns
     · simp [updT_ne _ _ h] at hh hf hns; exact hI.blind i s k' hh hf hs hns
   · intro s hs m key hpre
-    rcases hI.viewI s hs m key hpre with h | h
-    · by_cases hc : key.peer = me ∧ key.shard = k
-      · right
-        exact ⟨k :: (st.threads me).drop.getD [], by simp [hc.1], by simp [hc.2]⟩
+    have hnew : key.peer = me ∧ key.shard = k → droppedShard
+        { st with rib := fun key => if key.peer = me ∧ key.shard = k then none else st.rib key,
+                  threads := updT st.threads me { (st.threads me) with pgm := rest, drop := some (k :: (st.threads me).drop.getD []) } } key :=
+      fun hc => ⟨k :: (st.threads me).drop.getD [], by simp [hc.1], by simp [hc.2]⟩
+    by_cases hc : key.peer = me ∧ key.shard = k
+    · right; left; exact hnew hc
+    · rcases hI.viewI s hs m key hpre with h | h | ⟨e, he, hg⟩
       · left
         rw [h, ribV_eq, ribV_eq]; cases m <;> simp [ribVr, hc]
-    · right; exact hds key h
+      · right; left; exact hds key h
+      · right; right; exact ⟨e, by simp [hc, he], hg⟩
 
 theorem step_sendDown {st st' : St} {me rest} (hI : Inv st)
     (hp : (st.threads me).pgm = .sendDown :: rest) (hs : step me st = some st') : Inv st' := by
@@ -1011,10 +1043,10 @@ theorem step_sendDown {st st' : St} {me rest} (hI : Inv st)
       · rw [send_in hin, touched_append]; exact Or.inl h
       · rw [send_out hin]; exact h
   -- every key of this peer is gone from the table: all shards were dropped
-  have hgone : ∀ key, key.peer = me → st.rib key = none := by
+  have hgone : ∀ key, key.peer = me → st.rib key = none ∨ staleKey st key := by
     intro key hk
     cases h : st.rib key with
-    | none => rfl
+    | none => exact Or.inl rfl
     | some e =>
       have hlt := (hI.sup key e h).2
       have hmem := cover_mem hcov hlt
@@ -1024,7 +1056,9 @@ theorem step_sendDown {st st' : St} {me rest} (hI : Inv st)
         cases hd : (st.threads me).drop with
         | none => simp [hd] at hmem
         | some l => simp
-      rw [hI.dropped key this] at h; cases h
+      rcases hI.dropped key this with h' | h'
+      · rw [h'] at h; cases h
+      · exact Or.inr h'
   constructor <;> dsimp only
   · intro i hi
     have : i ≠ me := by omega
@@ -1070,7 +1104,6 @@ theorem step_sendDown {st st' : St} {me rest} (hI : Inv st)
     · subst h; simp at hr ⊢; exact hI.recs i r hr hw
     · simp [updT_ne _ _ h] at hr ⊢; exact hI.recs i r hr hw
   · intro s m key h; exact hI.tshard s m key ((hq s m key).mp h)
-  · exact hI.nostale
   · intro s hs; exact send_mono (hI.eosI s hs)
   · intro key ⟨l, hl, hk⟩
     by_cases h : key.peer = me
@@ -1086,18 +1119,133 @@ theorem step_sendDown {st st' : St} {me rest} (hI : Inv st)
     rw [send_in hs, view_append]
     have hpre' : touched m key (st.queues s) ∨ key.shard ∈ st.done s := hpre.imp_left (hq s m key).mp
     by_cases h : key.peer = me
-    · left
-      have : [Ev.down me].foldl (stepView m key) (view m key (st.queues s)) = none := by
+    · have : [Ev.down me].foldl (stepView m key) (view m key (st.queues s)) = none := by
         cases m <;> simp [stepView, proj, h]
-      rw [this, ribV_eq]
-      cases m <;> simp [ribVr, hgone key h]
+      rw [this]
+      rcases hgone key h with hn | hst
+      · left; rw [ribV_eq]; cases m <;> simp [ribVr, hn]
+      · right; right; exact hst
     · have : [Ev.down me].foldl (stepView m key) (view m key (st.queues s)) = view m key (st.queues s) := by
         have : me ≠ key.peer := fun e => h e.symm
         cases m <;> simp [stepView, proj, this]
       rw [this]
-      rcases hI.viewI s hs m key hpre' with hv | ⟨l, hl, hk⟩
+      rcases hI.viewI s hs m key hpre' with hv | ⟨l, hl, hk⟩ | hst
       · left; exact hv
-      · right; exact ⟨l, by simp [updT_ne _ _ h]; exact hl, hk⟩
+      · right; left; exact ⟨l, by simp [updT_ne _ _ h]; exact hl, hk⟩
+      · right; right; exact hst
+
+theorem step_sendDownGr {st st' : St} {me rest} (hI : Inv st)
+    (hp : (st.threads me).pgm = .sendDownGr :: rest) (hs : step me st = some st') : Inv st' := by
+  have hme := me_lt hI hp
+  have hw := hI.wf me
+  unfold TWF at hw; rw [hp] at hw
+  simp only [wfp, Bool.and_eq_true, Option.isNone_iff_eq_none] at hw
+  obtain ⟨⟨⟨hheld, hsnap⟩, hcov⟩, hrest⟩ := hw
+  simp only [step, hp] at hs
+  injection hs with hs; subst hs
+  have hnt : ∀ m key, ¬ touched m key [Ev.down me] := by
+    intro m key ⟨e, he, v, hv⟩; simp at he; subst he; cases m <;> simp [proj] at hv
+  have hq : ∀ s m key, touched m key (send st.queues st.subscribers [Ev.down me] s) ↔ touched m key (st.queues s) := by
+    intro s m key
+    constructor
+    · intro h; rcases touched_send h with h | ⟨_, h⟩
+      · exact h
+      · exact absurd h (hnt m key)
+    · intro h
+      by_cases hin : s ∈ st.subscribers
+      · rw [send_in hin, touched_append]; exact Or.inl h
+      · rw [send_out hin]; exact h
+  -- every key of this peer is gone from the table: all shards were dropped
+  have hgone : ∀ key, key.peer = me → st.rib key = none ∨ staleKey st key := by
+    intro key hk
+    cases h : st.rib key with
+    | none => exact Or.inl rfl
+    | some e =>
+      have hlt := (hI.sup key e h).2
+      have hmem := cover_mem hcov hlt
+      have : droppedShard st key := by
+        refine ⟨(st.threads me).drop.getD [], ?_, hmem⟩
+        rw [hk]
+        cases hd : (st.threads me).drop with
+        | none => simp [hd] at hmem
+        | some l => simp
+      rcases hI.dropped key this with h' | h'
+      · rw [h'] at h; cases h
+      · exact Or.inr h'
+  constructor <;> dsimp only
+  · intro i hi
+    have : i ≠ me := by omega
+    simp only [updT_ne _ _ this]; exact hI.idle i hi
+  · intro i
+    by_cases h : i = me
+    · subst h; unfold TWF; simpa using hrest
+    · simpa [updT_ne _ _ h] using hI.wf i
+  · intro i j k' hi hj
+    have hi' : (st.threads i).held = some k' := by
+      by_cases h : i = me
+      · subst h; simpa using hi
+      · simpa [updT_ne _ _ h] using hi
+    have hj' : (st.threads j).held = some k' := by
+      by_cases h : j = me
+      · subst h; simpa using hj
+      · simpa [updT_ne _ _ h] using hj
+    exact hI.excl i j k' hi' hj'
+  · intro i k' hi
+    by_cases h : i = me
+    · subst h; simp at hi; exact hI.heldlt i k' hi
+    · simp [updT_ne _ _ h] at hi; exact hI.heldlt i k' hi
+  · exact hI.sup
+  · exact hI.idsS
+  · intro i s hs
+    by_cases h : i = me
+    · subst h; simp at hs; exact hI.idsT i s hs
+    · simp [updT_ne _ _ h] at hs; exact hI.idsT i s hs
+  · intro i s l hs
+    by_cases h : i = me
+    · subst h; simp at hs; exact hI.idsN i s l hs
+    · simp [updT_ne _ _ h] at hs; exact hI.idsN i s l hs
+  · intro s hs
+    have : s ∉ st.subscribers := fun h => Nat.lt_irrefl _ (Nat.lt_of_lt_of_le (hI.idsS s h) hs)
+    rw [send_out this]; exact hI.idsQ s hs
+  · intro i s l hs
+    by_cases h : i = me
+    · subst h; simp at hs; exact hI.snapl i s l hs
+    · simp [updT_ne _ _ h] at hs; exact hI.snapl i s l hs
+  · exact hI.comp
+  · intro i r hr hw
+    by_cases h : i = me
+    · subst h; simp at hr ⊢; exact hI.recs i r hr hw
+    · simp [updT_ne _ _ h] at hr ⊢; exact hI.recs i r hr hw
+  · intro s m key h; exact hI.tshard s m key ((hq s m key).mp h)
+  · intro s hs; exact send_mono (hI.eosI s hs)
+  · intro key ⟨l, hl, hk⟩
+    by_cases h : key.peer = me
+    · rw [h] at hl; simp at hl
+    · simp [updT_ne _ _ h] at hl; exact hI.dropped key ⟨l, hl, hk⟩
+  · intro i s k' hh hf hs hns
+    have hb : k' ∉ st.done s ∧ ∀ m key, key.shard = k' → ¬ touched m key (st.queues s) := by
+      by_cases h : i = me
+      · subst h; simp at hh hf hns; exact hI.blind i s k' hh hf hs hns
+      · simp [updT_ne _ _ h] at hh hf hns; exact hI.blind i s k' hh hf hs hns
+    exact ⟨hb.1, fun m key hk h => hb.2 m key hk ((hq s m key).mp h)⟩
+  · intro s hs m key hpre
+    rw [send_in hs, view_append]
+    have hpre' : touched m key (st.queues s) ∨ key.shard ∈ st.done s := hpre.imp_left (hq s m key).mp
+    by_cases h : key.peer = me
+    · have : [Ev.down me].foldl (stepView m key) (view m key (st.queues s)) = none := by
+        cases m <;> simp [stepView, proj, h]
+      rw [this]
+      rcases hgone key h with hn | hst
+      · left; rw [ribV_eq]; cases m <;> simp [ribVr, hn]
+      · right; right; exact hst
+    · have : [Ev.down me].foldl (stepView m key) (view m key (st.queues s)) = view m key (st.queues s) := by
+        have : me ≠ key.peer := fun e => h e.symm
+        cases m <;> simp [stepView, proj, this]
+      rw [this]
+      rcases hI.viewI s hs m key hpre' with hv | ⟨l, hl, hk⟩ | hst
+      · left; exact hv
+      · right; left; exact ⟨l, by simp [updT_ne _ _ h]; exact hl, hk⟩
+      · right; right; exact hst
 
 theorem step_register {st st' : St} {me w b rest} (hI : Inv st)
     (hp : (st.threads me).pgm = .register w b :: rest) (hs : step me st = some st') : Inv st' := by
@@ -1168,7 +1316,6 @@ theorem step_register {st st' : St} {me w b rest} (hI : Inv st)
       · subst hr; simp at hwant; subst hwant; right; simp
     · simp [updT_ne _ _ h] at hr ⊢; exact hI.recs i r hr hwant
   · exact hI.tshard
-  · exact hI.nostale
   · exact hI.eosI
   · intro key ⟨l, hl, hk⟩
     by_cases h : key.peer = me
@@ -1188,13 +1335,14 @@ theorem step_register {st st' : St} {me w b rest} (hI : Inv st)
   · intro s hs m key hpre
     simp at hs
     rcases hs with hs | hs
-    · rcases hI.viewI s hs m key hpre with hv | ⟨l, hl, hk⟩
+    · rcases hI.viewI s hs m key hpre with hv | ⟨l, hl, hk⟩ | hst
       · left; exact hv
-      · right
+      · right; left
         refine ⟨l, ?_, hk⟩
         by_cases h : key.peer = me
         · rw [h] at hl ⊢; simp; exact hl
         · simp [updT_ne _ _ h]; exact hl
+      · right; right; exact hst
     · subst hs
       rw [hq0.1, hq0.2] at hpre
       rcases hpre with h | h
@@ -1287,7 +1435,6 @@ theorem step_sentinel {st st' : St} {me rest} (hI : Inv st)
         · exact Or.inl (Or.inr hc)
         · exact Or.inr hl
     · intro s m key h; exact hI.tshard s m key ((hq s m key).mp h)
-    · exact hI.nostale
     · intro s hs
       simp at hs
       rcases hs with hs | hs
@@ -1305,13 +1452,14 @@ theorem step_sentinel {st st' : St} {me rest} (hI : Inv st)
       exact ⟨hb.1, fun m key hk h => hb.2 m key hk ((hq s m key).mp h)⟩
     · intro s hs m key hpre
       rw [hv]
-      rcases hI.viewI s hs m key (hpre.imp_left (hq s m key).mp) with hv | ⟨l, hl, hk⟩
+      rcases hI.viewI s hs m key (hpre.imp_left (hq s m key).mp) with hv | ⟨l, hl, hk⟩ | hst
       · left; exact hv
-      · right
+      · right; left
         refine ⟨l, ?_, hk⟩
         by_cases h : key.peer = me
         · rw [h] at hl ⊢; simp; exact hl
         · simp [updT_ne _ _ h]; exact hl
+      · right; right; exact hst
 
 def preBatch (ks : List Key) (f : Key → Option Nat) : List Ev := ks.map fun key => Ev.pre key (f key)
 
@@ -1493,7 +1641,6 @@ theorem step_snap {st st' : St} {me k rest} (hI : Inv st)
         · exact hI.tshard s m key h
         · rw [touched_snap h]; exact hI.heldlt me k hheld
       · rw [hq s hs'] at h; exact hI.tshard s m key h
-    · exact hI.nostale
     · intro s hs; exact send_mono (hI.eosI s hs)
     · intro key ⟨l, hl, hk⟩
       by_cases h : key.peer = me
@@ -1536,9 +1683,10 @@ theorem step_snap {st st' : St} {me k rest} (hI : Inv st)
           | none =>
             dsimp only
             by_cases hold : touched m key (st.queues s) ∨ key.shard ∈ st.done s
-            · rcases hI.viewI s hs m key hold with hv | hd
+            · rcases hI.viewI s hs m key hold with hv | hd | hst
               · left; rw [hv, hr]
-              · right; exact hdsh key hd
+              · right; left; exact hdsh key hd
+              · right; right; exact hst
             · left
               exact view_untouched m key _ (fun h => hold (Or.inl h))
         · have hnt : ¬ touched m key (snapEvents st k) := fun h => hk (touched_snap h)
@@ -1547,14 +1695,283 @@ theorem step_snap {st st' : St} {me k rest} (hI : Inv st)
             rcases hpre with h | h
             · rw [touched_append] at h; exact h.elim Or.inl (fun h => absurd h hnt)
             · simp at h; exact h.elim (fun h => absurd h hk) Or.inr
-          rcases hI.viewI s hs m key hold with hv | hd
+          rcases hI.viewI s hs m key hold with hv | hd | hst
           · left; exact hv
-          · right; exact hdsh key hd
+          · right; left; exact hdsh key hd
+          · right; right; exact hst
       · rw [hq s hs'] at hpre ⊢
         simp only [hs', if_false] at hpre
-        rcases hI.viewI s hs m key hpre with hv | hd
+        rcases hI.viewI s hs m key hpre with hv | hd | hst
         · left; exact hv
-        · right; exact hdsh key hd
+        · right; left; exact hdsh key hd
+        · right; right; exact hst
+
+theorem mem_gensIn {st : St} {p k : Nat} {key : Key} {e : Entry} (hkeys : key ∈ st.keys) (hp : key.peer = p)
+    (hk : key.shard = k) (he : st.rib key = some e) : (p, e.gen) ∈ gensIn st p k := by
+  simp only [gensIn, List.mem_filterMap]
+  exact ⟨key, mem_peerKeysIn.mpr ⟨hkeys, hp, hk, by simp [he]⟩, by simp [he]⟩
+
+theorem step_commitStale {st st' : St} {me k rest} (hI : Inv st)
+    (hp : (st.threads me).pgm = .commitStale k :: rest) (hs : step me st = some st') : Inv st' := by
+  have hme := me_lt hI hp
+  have hw := hI.wf me
+  unfold TWF at hw; rw [hp] at hw
+  simp only [wfp, Bool.and_eq_true, decide_eq_true_eq, Option.isNone_iff_eq_none] at hw
+  obtain ⟨⟨hheld, hsnap⟩, hrest⟩ := hw
+  simp only [step, hp] at hs
+  injection hs with hs; subst hs
+  -- stale marks only accumulate
+  have hmono : ∀ key, staleKey st key → staleKeyR st.rib (st.staleGens ++ gensIn st me k) key :=
+    fun key ⟨e, he, hg⟩ => ⟨e, he, List.mem_append_left _ hg⟩
+  have hold : ∀ key, ¬ (key.peer = me ∧ key.shard = k) →
+      (∃ l, (updT st.threads me { (st.threads me) with pgm := rest, drop := some (k :: (st.threads me).drop.getD []) } key.peer).drop = some l ∧ key.shard ∈ l) →
+      droppedShard st key := by
+    intro key hc ⟨l, hl, hk⟩
+    by_cases h : key.peer = me
+    · rw [h] at hl; simp at hl; subst hl
+      simp at hk
+      rcases hk with hk | hk
+      · exact absurd ⟨h, hk⟩ hc
+      · refine ⟨(st.threads me).drop.getD [], ?_, hk⟩
+        rw [h]
+        cases hd : (st.threads me).drop with
+        | none => simp [hd] at hk
+        | some l => simp
+    · simp [updT_ne _ _ h] at hl; exact ⟨l, hl, hk⟩
+  have hds : ∀ key, droppedShard st key →
+      (∃ l, (updT st.threads me { (st.threads me) with pgm := rest, drop := some (k :: (st.threads me).drop.getD []) } key.peer).drop = some l ∧ key.shard ∈ l) := by
+    intro key ⟨l, hl, hk⟩
+    by_cases h : key.peer = me
+    · refine ⟨k :: (st.threads me).drop.getD [], by simp [h], ?_⟩
+      rw [h] at hl; simp [hl, hk]
+    · exact ⟨l, by simp [updT_ne _ _ h]; exact hl, hk⟩
+  constructor <;> dsimp only
+  · intro i hi
+    have : i ≠ me := by omega
+    simp only [updT_ne _ _ this]; exact hI.idle i hi
+  · intro i
+    by_cases h : i = me
+    · subst h; unfold TWF; simpa using hrest
+    · simpa [updT_ne _ _ h] using hI.wf i
+  · intro i j k' hi hj
+    have hi' : (st.threads i).held = some k' := by
+      by_cases h : i = me
+      · subst h; simpa using hi
+      · simpa [updT_ne _ _ h] using hi
+    have hj' : (st.threads j).held = some k' := by
+      by_cases h : j = me
+      · subst h; simpa using hj
+      · simpa [updT_ne _ _ h] using hj
+    exact hI.excl i j k' hi' hj'
+  · intro i k' hi
+    by_cases h : i = me
+    · subst h; simp at hi; exact hI.heldlt i k' hi
+    · simp [updT_ne _ _ h] at hi; exact hI.heldlt i k' hi
+  · exact hI.sup
+  · exact hI.idsS
+  · intro i s hs
+    by_cases h : i = me
+    · subst h; simp at hs; exact hI.idsT i s hs
+    · simp [updT_ne _ _ h] at hs; exact hI.idsT i s hs
+  · intro i s l hs
+    by_cases h : i = me
+    · subst h; simp at hs; exact hI.idsN i s l hs
+    · simp [updT_ne _ _ h] at hs; exact hI.idsN i s l hs
+  · exact hI.idsQ
+  · intro i s l hs
+    by_cases h : i = me
+    · subst h; simp at hs; exact hI.snapl i s l hs
+    · simp [updT_ne _ _ h] at hs; exact hI.snapl i s l hs
+  · exact hI.comp
+  · intro i r hr hw
+    by_cases h : i = me
+    · subst h; simp at hr ⊢; exact hI.recs i r hr hw
+    · simp [updT_ne _ _ h] at hr ⊢; exact hI.recs i r hr hw
+  · exact hI.tshard
+  · exact hI.eosI
+  · intro key hdk
+    by_cases hc : key.peer = me ∧ key.shard = k
+    · cases he : st.rib key with
+      | none => exact Or.inl rfl
+      | some e =>
+        right
+        have hm := mem_gensIn (hI.sup key e he).1 hc.1 hc.2 he
+        exact ⟨e, he, List.mem_append_right _ (by rw [hc.1]; exact hm)⟩
+    · exact (hI.dropped key (hold key hc hdk)).imp id (hmono key)
+  · intro i s k' hh hf hs hns
+    by_cases h : i = me
+    · subst h; simp at hh hf hns; exact hI.blind i s k' hh hf hs hns
+    · simp [updT_ne _ _ h] at hh hf hns; exact hI.blind i s k' hh hf hs hns
+  · intro s hs m key hpre
+    rcases hI.viewI s hs m key hpre with h | h | h
+    · left; exact h
+    · right; left; exact hds key h
+    · right; right; exact hmono key h
+
+/-! ### the purge class -/
+
+/-- the withdrawals `purge_notifying` sends: pre- and post-policy, one pair per removed key -/
+def wdBatch (ks : List Key) : List Ev := ks.flatMap fun key => [Ev.pre key none, Ev.post key none]
+
+theorem wdBatch_no_down (ks) : ∀ e ∈ wdBatch ks, ∀ p, e ≠ .down p := by
+  intro e he p
+  simp [wdBatch] at he
+  obtain ⟨k, _, rfl | rfl⟩ := he <;> simp
+
+theorem touched_wdBatch {m key ks} : touched m key (wdBatch ks) ↔ key ∈ ks := by
+  constructor
+  · intro ⟨e, he, v, hv⟩
+    simp [wdBatch] at he
+    obtain ⟨k, hk, rfl | rfl⟩ := he <;> cases m <;> simp [proj] at hv <;> exact hv.1 ▸ hk
+  · intro hk
+    cases m
+    · exact ⟨Ev.pre key none, by simp only [wdBatch, List.mem_flatMap]; exact ⟨key, hk, by simp⟩, none, rfl⟩
+    · exact ⟨Ev.post key none, by simp only [wdBatch, List.mem_flatMap]; exact ⟨key, hk, by simp⟩, none, rfl⟩
+
+theorem wdBatch_val {m key ks} : ∀ e ∈ wdBatch ks, ∀ w, proj m e = some (key, w) → w = none := by
+  intro e he w hw
+  simp [wdBatch] at he
+  obtain ⟨k, _, rfl | rfl⟩ := he <;> cases m <;> simp [proj] at hw <;> exact hw.2.symm
+
+/-- `purge_notifying` around a bulk purge: removed paths are withdrawn to the subscribers loaded
+    under the lock -/
+theorem inv_purge {st : St} {me k : Nat} {t' : Thread} (gone : Entry → Bool) (hI : Inv st)
+    (hme : me < st.nthreads)
+    (hheld : (st.threads me).held = some k) (hfresh : (st.threads me).fresh = true)
+    (hdrop : (st.threads me).drop = none)
+    (hsu : t'.subs = (st.threads me).subs) (hh : t'.held = (st.threads me).held)
+    (hf : t'.fresh = (st.threads me).fresh)
+    (hd : t'.drop = (st.threads me).drop) (hsn : t'.snapping = (st.threads me).snapping)
+    (hms : t'.mysubs = (st.threads me).mysubs)
+    (hwf : TWF st.n me t') :
+    Inv (purgeStep st me t' k gone) := by
+  unfold purgeStep
+  let ks := (peerKeysIn st me k).filter fun key => match st.rib key with
+    | some e => gone e
+    | none => false
+  let R : Key → Option Entry := fun key =>
+    if key.peer = me ∧ key.shard = k then (st.rib key).bind fun e => if gone e then none else some e
+    else st.rib key
+  have hks : ∀ key, key ∈ ks ↔ key ∈ st.keys ∧ key.peer = me ∧ key.shard = k ∧ ∃ e, st.rib key = some e ∧ gone e = true := by
+    intro key
+    simp only [ks, List.mem_filter, mem_peerKeysIn]
+    constructor
+    · rintro ⟨⟨h1, h2, h3, h4⟩, h5⟩
+      obtain ⟨e, he⟩ := Option.isSome_iff_exists.mp h4
+      exact ⟨h1, h2, h3, e, he, by simpa [he] using h5⟩
+    · rintro ⟨h1, h2, h3, e, he, hg⟩
+      exact ⟨⟨h1, h2, h3, by simp [he]⟩, by simp [he, hg]⟩
+  have hRin : ∀ key, key ∈ ks → R key = none := by
+    intro key hk
+    obtain ⟨_, h2, h3, e, he, hg⟩ := (hks key).mp hk
+    simp [R, h2, h3, he, hg]
+  have hRout : ∀ key, key ∉ ks → R key = st.rib key := by
+    intro key hk
+    by_cases hc : key.peer = me ∧ key.shard = k
+    · cases he : st.rib key with
+      | none => simp [R, hc, he]
+      | some e =>
+        have hg : gone e = false := by
+          cases hgo : gone e with
+          | false => rfl
+          | true => exact absurd ((hks key).mpr ⟨(hI.sup key e he).1, hc.1, hc.2, e, he, hgo⟩) hk
+        simp [R, hc, he, hg]
+    · simp [R, hc]
+  show Inv { st with rib := R, queues := send st.queues t'.subs (wdBatch ks), apq := _, threads := _ }
+  rw [hsu]
+  refine inv_data hI R st.keys _ hme hsu hh hf hd hsn hms hwf (fun s e h => send_mono h) ?_ ?_ ?_ ?_ ?_ ?_
+  · intro key e he
+    by_cases hk : key ∈ ks
+    · rw [hRin key hk] at he; cases he
+    · rw [hRout key hk] at he; exact hI.sup key e he
+  · intro s hs
+    have : s ∉ (st.threads me).subs := fun h => Nat.lt_irrefl _ (Nat.lt_of_lt_of_le (hI.idsT me s h) hs)
+    rw [send_out this]; exact (hI.idsQ s hs).1
+  · intro s m key htch
+    rcases touched_send htch with h | ⟨_, h⟩
+    · exact hI.tshard s m key h
+    · rw [((hks key).mp (touched_wdBatch.mp h)).2.2.1]; exact hI.heldlt me _ hheld
+  · intro key hdk
+    have hne : key.peer ≠ me := by
+      intro h
+      obtain ⟨l, hl, _⟩ := hdk
+      rw [h, hdrop] at hl; cases hl
+    have hk : key ∉ ks := fun h => hne ((hks key).mp h).2.1
+    exact (hI.dropped key hdk).imp (fun h => by rw [hRout key hk]; exact h) (staleKeyR_congr (hRout key hk)).mpr
+  · intro i s k0 hh' hf' hs hns m key hk' htch
+    rcases touched_send htch with h | ⟨hin, h⟩
+    · exact (hI.blind i s k0 hh' hf' hs hns).2 m key hk' h
+    · have hsh := ((hks key).mp (touched_wdBatch.mp h)).2.2.1
+      have : i = me := hI.excl i me _ hh' (by rw [← hk', hsh]; exact hheld)
+      subst this; exact hns hin
+  · intro s hs m key hpre
+    by_cases hin : s ∈ (st.threads me).subs
+    · rw [send_in hin] at hpre ⊢
+      by_cases hk : key ∈ ks
+      · left
+        rw [view_append, foldl_batch_hit m key none _ _ (wdBatch_no_down _) wdBatch_val (touched_wdBatch.mpr hk)]
+        cases m <;> simp [ribVr, hRin key hk]
+      · have hnt : ¬ touched m key (wdBatch ks) := fun h => hk (touched_wdBatch.mp h)
+        rw [view_append, foldl_untouched m key _ _ hnt (fun e he p hp => absurd hp (wdBatch_no_down _ e he p))]
+        have hpre' : touched m key (st.queues s) ∨ key.shard ∈ st.done s := by
+          rcases hpre with h | h
+          · rw [touched_append] at h; exact h.elim Or.inl (fun h => absurd h hnt)
+          · exact Or.inr h
+        have : ribVr m R key = ribV m st key := by rw [ribV_eq]; simp [ribVr, hRout key hk]
+        rw [this]; exact escape_congr (hRout key hk) (hI.viewI s hs m key hpre')
+    · rw [send_out hin] at hpre ⊢
+      have hb := hI.blind me s _ hheld hfresh hs hin
+      by_cases hk : key ∈ ks
+      · have hsh := ((hks key).mp hk).2.2.1
+        rcases hpre with h | h
+        · exact absurd h (hb.2 m _ hsh)
+        · exact absurd (hsh ▸ h) hb.1
+      · have : ribVr m R key = ribV m st key := by rw [ribV_eq]; simp [ribVr, hRout key hk]
+        rw [this]; exact escape_congr (hRout key hk) (hI.viewI s hs m key hpre)
+
+theorem wf_purge {st : St} {me k : Nat} {rest : List Instr} {ins : Instr} (hI : Inv st)
+    (hp : (st.threads me).pgm = ins :: rest)
+    (hins : ins = .commitPurge k ∨ ins = .commitDropQuiet k ∨ ins = .commitLpurge k) :
+    (st.threads me).held = some k ∧ (st.threads me).fresh = true ∧ (st.threads me).drop = none ∧
+    wfp st.n me rest (st.threads me).held (st.threads me).fresh (st.threads me).drop
+      ((st.threads me).snapping.map (·.2)) = true := by
+  have hw := hI.wf me
+  unfold TWF at hw; rw [hp] at hw
+  rcases hins with rfl | rfl | rfl <;>
+    (simp only [wfp, Bool.and_eq_true, decide_eq_true_eq, Option.isNone_iff_eq_none] at hw
+     exact ⟨hw.1.1.1.1, hw.1.1.1.2, hw.1.1.2, hw.2⟩)
+
+theorem step_commitPurge {st st' : St} {me k rest} (hI : Inv st)
+    (hp : (st.threads me).pgm = .commitPurge k :: rest) (hs : step me st = some st') : Inv st' := by
+  obtain ⟨h1, h2, h3, h4⟩ := wf_purge hI hp (Or.inl rfl)
+  simp only [step, hp] at hs
+  injection hs with hs; subst hs
+  exact inv_purge _ hI (me_lt hI hp) h1 h2 h3 rfl rfl rfl rfl rfl rfl (by unfold TWF; simpa using h4)
+
+theorem step_commitDropQuiet {st st' : St} {me k rest} (hI : Inv st)
+    (hp : (st.threads me).pgm = .commitDropQuiet k :: rest) (hs : step me st = some st') : Inv st' := by
+  obtain ⟨h1, h2, h3, h4⟩ := wf_purge hI hp (Or.inr (Or.inl rfl))
+  simp only [step, hp] at hs
+  injection hs with hs; subst hs
+  exact inv_purge _ hI (me_lt hI hp) h1 h2 h3 rfl rfl rfl rfl rfl rfl (by unfold TWF; simpa using h4)
+
+theorem step_commitLpurge {st st' : St} {me k rest} (hI : Inv st)
+    (hp : (st.threads me).pgm = .commitLpurge k :: rest) (hs : step me st = some st') : Inv st' := by
+  obtain ⟨h1, h2, h3, h4⟩ := wf_purge hI hp (Or.inr (Or.inr rfl))
+  simp only [step, hp] at hs
+  injection hs with hs; subst hs
+  exact inv_purge _ hI (me_lt hI hp) h1 h2 h3 rfl rfl rfl rfl rfl rfl (by unfold TWF; simpa using h4)
+
+theorem step_commitLlgr {st st' : St} {me k rest} (hI : Inv st)
+    (hp : (st.threads me).pgm = .commitLlgr k :: rest) (hs : step me st = some st') : Inv st' := by
+  have hme := me_lt hI hp
+  have hw := hI.wf me
+  unfold TWF at hw; rw [hp] at hw
+  simp only [wfp, Bool.and_eq_true, decide_eq_true_eq] at hw
+  simp only [step, hp] at hs
+  injection hs with hs; subst hs
+  exact inv_core (p := st.policy) (E := st.established) (A := st.addpath) hI hme rfl rfl (fun r hr => ⟨r, hr, rfl, rfl⟩)
+    (by unfold TWF; simpa using hw.2) (keepCore hI).1 (hI.idsT me) (keepCore hI).2
 
 theorem markDead_spec : ∀ (l : List SubRec) {s l'}, markDead l = some (s, l') →
     ∀ r' ∈ l', ∃ r ∈ l, r.sid = r'.sid ∧ r.want = r'.want := by
@@ -1596,7 +2013,7 @@ theorem step_unsubscribe {st st' : St} {me rest} (hI : Inv st)
   | none =>
     simp only [hm] at hs
     injection hs with hs; subst hs
-    exact inv_core (p := st.policy) (E := st.established) (A := st.addpath) hI hme rfl rfl (fun r hr => ⟨r, hr, rfl, rfl⟩) (by unfold TWF; simpa [hsnap'] using hrest)
+    exact inv_core (p := st.policy) (E := st.established) (A := st.addpath) (L := st.llgrGens) hI hme rfl rfl (fun r hr => ⟨r, hr, rfl, rfl⟩) (by unfold TWF; simpa [hsnap'] using hrest)
       (keepCore hI).1 (hI.idsT me) (keepCore hI).2
   | some p =>
     obtain ⟨s0, ms⟩ := p
@@ -1651,7 +2068,6 @@ theorem step_unsubscribe {st st' : St} {me rest} (hI : Inv st)
         · rw [hsnap'] at hl; cases hl
       · simp [updT_ne _ _ h] at hr ⊢; exact hI.recs i r hr hwant
     · exact hI.tshard
-    · exact hI.nostale
     · exact hI.eosI
     · intro key ⟨l, hl, hk⟩
       by_cases h : key.peer = me
@@ -1662,13 +2078,14 @@ theorem step_unsubscribe {st st' : St} {me rest} (hI : Inv st)
       · subst h; simp at hh hf hns; exact hI.blind i s k' hh hf (hsub s hs) hns
       · simp [updT_ne _ _ h] at hh hf hns; exact hI.blind i s k' hh hf (hsub s hs) hns
     · intro s hs m key hpre
-      rcases hI.viewI s (hsub s hs) m key hpre with hv | ⟨l, hl, hk⟩
+      rcases hI.viewI s (hsub s hs) m key hpre with hv | ⟨l, hl, hk⟩ | hst
       · left; exact hv
-      · right
+      · right; left
         refine ⟨l, ?_, hk⟩
         by_cases h : key.peer = me
         · rw [h] at hl ⊢; simp; exact hl
         · simp [updT_ne _ _ h]; exact hl
+      · right; right; exact hst
 
 /-- Every atomic step of every thread preserves the invariant. -/
 theorem step_inv {st st' : St} {me : Nat} (hI : Inv st) (hs : step me st = some st') : Inv st' := by
@@ -1687,12 +2104,12 @@ theorem step_inv {st st' : St} {me : Nat} (hI : Inv st) (hs : step me st = some 
     | setEst b => exact step_setEst hI hp hs
     | regShard k => exact step_regShard hI hp hs
     | captureE0 => exact step_captureE0 hI hp hs
-    | commitStale k => exact absurd (hI.wf me) (by unfold TWF; rw [hp]; simp [wfp])
-    | commitDropQuiet k => exact absurd (hI.wf me) (by unfold TWF; rw [hp]; simp [wfp])
-    | commitPurge k => exact absurd (hI.wf me) (by unfold TWF; rw [hp]; simp [wfp])
-    | commitLlgr k => exact absurd (hI.wf me) (by unfold TWF; rw [hp]; simp [wfp])
-    | commitLpurge k => exact absurd (hI.wf me) (by unfold TWF; rw [hp]; simp [wfp])
-    | sendDownGr => exact absurd (hI.wf me) (by unfold TWF; rw [hp]; simp [wfp])
+    | commitStale k => exact step_commitStale hI hp hs
+    | commitDropQuiet k => exact step_commitDropQuiet hI hp hs
+    | commitPurge k => exact step_commitPurge hI hp hs
+    | commitLlgr k => exact step_commitLlgr hI hp hs
+    | commitLpurge k => exact step_commitLpurge hI hp hs
+    | sendDownGr => exact step_sendDownGr hI hp hs
     | commitDrop k => exact step_commitDrop hI hp hs
     | sendUp => exact step_sendUp hI hp hs
     | sendDown => exact step_sendDown hI hp hs
